@@ -2,7 +2,7 @@
 bounds / stubs / assumptions.  bin/check reads this; evidence files are generated from it plus
 the parsed solver output."""
 
-MEM_GB = 14
+MEM_GB = int(__import__("os").environ.get("VERIF_MEM_GB", "14"))
 MEM_GB_PLAYBACK = 44   # kani-driver parses the full CBMC json trace for concrete playback
 DEFAULT_TIMEOUT = {"quick": 600, "thorough": 3000}
 
@@ -151,6 +151,8 @@ PROPS["C10"] = dict(
         H("c06::c06_ack_classic_step", "core", desc="+29 iff in_flight*1000 > window (unbounded integers), capped"),
         H("c06::c06_conn_events_step", "core", desc="global +1 iff connected and ever heard; -100 per charged NAK; bounds"),
         H("c06::c06_nak_step", "core", desc="-100 floored at 1000"),
+        H("c10::c10_get_score_formula", "core", desc="get_score == window / (in-flight + queued + 1), -1 when disconnected", timeout=1500),
+        H("c02s::c10_window_evolution_two_acks", "shell", desc="two-ACK datagram in classic mode == reference rules per packet, in order", bounds="2 links, 2 ACK numbers", timeout=1500),
         H("c10::c10_classic_reference_n3", "core", tier="thorough", bounds="N=3", timeout=3000),
         H("c10::c10_classic_reference_n4", "core", tier="thorough", bounds="N=4", timeout=3000),
     ],
@@ -166,7 +168,7 @@ PROPS["C12"] = dict(
         H("c03::c03_classic_n2", "core", desc="projection of liveness/accounting state unchanged by a classic selection"),
         H("c03::c03_enhanced_n2", "core", desc="projection unchanged by an enhanced selection"),
         H("c10::c12_guard_off_classic_n2", "core", desc="guard off: flags cleared, decision == decision with clean stall history"),
-        H("c10::c12_guard_off_enhanced_n2", "core", desc="same, enhanced"),
+        H("c10::c12_guard_off_enhanced_n2", "core", tier="thorough", desc="same, enhanced (relational query over two f64 score pipelines; may exceed the budget)", timeout=3000),
         H("c13::c13_latch_step", "core", desc="latch update touches guard-private fields only"),
         H("c10::c12_guard_off_classic_n3", "core", tier="thorough", bounds="N=3", timeout=3000),
         H("c03::c03_classic_n3", "core", tier="thorough", bounds="N=3", timeout=3000),
@@ -213,6 +215,9 @@ PROPS["C02"] = dict(
         H("c02::c02_cumulative_ack_step_mid", "core", desc="cumulative ACK == set model for any mark/ack spacing (fast and slow path)", env={"VERIF_MAP_CAP": "4"}, timeout=1500),
         H("c02::c02_nak_and_srtla_ack_step_mid", "core", desc="NAK / SRTLA ACK retire exactly the held number; otherwise untouched", env={"VERIF_MAP_CAP": "4"}),
         H("c02::c02_reset_step_mid", "core", desc="resets retire everything", env={"VERIF_MAP_CAP": "4"}),
+        H("c02s::c02_srtla_ack_dispatch_idx0", "shell", desc="SRTLA ACK over 3 links: arrival link first, else exactly one other holder", bounds="3 links, arrival link 0", timeout=1500),
+        H("c02s::c02_srtla_ack_dispatch_idx1", "shell", desc="same, arrival link 1", bounds="3 links, arrival link 1", timeout=1500),
+        H("c02s::c02_cumulative_ack_every_link", "shell", desc="cumulative ACK retires on every link", bounds="2 links", timeout=1500),
         H("c02::c02_ack_order_independent_mid", "core", tier="thorough", desc="ACK a;b == ACK max(a,b)", env={"VERIF_MAP_CAP": "4"}, timeout=3000),
         H("c02::c02_history_4_mid", "core", tier="thorough", desc="4-event history vs set model", env={"VERIF_MAP_CAP": "4"}, timeout=3000),
     ],
@@ -242,10 +247,11 @@ PROPS["C01"] = dict(
     functions=["BatchSender::{new, queue_packet, drain, reset, needs_time_flush, has_queued_packets, queued_count, set_regime, regime}",
                "BatchRegime::{from_bps, batch_size}", "SrtlaConnection::{queue_data_packet, take_batch, register_packet, stall_probe_due}",
                "BitrateTracker::update_on_send"],
-    bounds="any sequence of n <= 5 (quick) / n <= 33 (thorough) datagrams of 1..8 symbolic bytes with symbolic sequence number and time, any "
-           "regime; flush predicates from any depth 0..32; take_batch with <= 3 queued datagrams; probe counter any value 0..99",
+    bounds="sequences of exactly n datagrams, n in {0,1,2,4,5} (quick) + {16,17,32,33} (thorough), each of 1..4 symbolic bytes with symbolic "
+           "sequence number and queue time, any regime; flush predicates at depths {0,3,15} (+{20,31}); take_batch with 3 queued datagrams; "
+           "probe counter any value 0..99",
     stubs=[],
-    assumptions=["payload <= 8 bytes per datagram in the Kani build (SmallVec copy is length-generic; model capacity 40 elements)",
+    assumptions=["payload <= 4 bytes per datagram in the Kani build (SmallVec copy is length-generic; model capacity 40 elements)",
                  "clock values <= 2^48 ms"],
     outside="the async shell path (handle_srt_packet -> forward_via_connection -> send_connection_batch -> BatchUdpSocket sendmmsg, "
             "flush_all_batches on the tokio timer, send-failure -> mark_for_recovery) ends in socket syscalls that Kani cannot execute: "
@@ -253,16 +259,104 @@ PROPS["C01"] = dict(
             "datagram accepted by a link's queue is handed to the flush exactly once, in order, unchanged, after at most 32 datagrams or the "
             "first timer check >= 15 ms after the previous flush. Which link a datagram is queued on is C03/C04.",
     harnesses=[
-        H("c01::c01_fifo_integrity_5", "core", desc="queue then drain == same datagrams, same order, same bytes/seq/time; threshold return value", bounds="n<=5"),
-        H("c01::c01_flush_predicates", "core", desc="timer flush iff non-empty and >=15 ms; threshold of the current regime; <= 32", bounds="depth 0..32", timeout=1500),
+        H("c01::c01_fifo_integrity_0", "core", desc="queue then drain == same datagrams, order, bytes/seq/time; threshold return value; no duplicates; reset empties", bounds="exactly 0 datagrams"),
+        H("c01::c01_fifo_integrity_1", "core", desc="same", bounds="exactly 1 datagram"),
+        H("c01::c01_fifo_integrity_2", "core", desc="same", bounds="exactly 2 datagrams"),
+        H("c01::c01_fifo_integrity_4", "core", desc="same (low-activity batch)", bounds="exactly 4 datagrams"),
+        H("c01::c01_fifo_integrity_5", "core", desc="same", bounds="exactly 5 datagrams"),
+        H("c01::c01_flush_predicates_d0", "core", desc="timer flush iff non-empty and >=15 ms; threshold of the current regime; <= 32", bounds="depth 0"),
+        H("c01::c01_flush_predicates_d3", "core", desc="same", bounds="depth 3"),
+        H("c01::c01_flush_predicates_d15", "core", desc="same", bounds="depth 15"),
         H("c01::c01_regime_from_bitrate", "core", desc="regime thresholds for every f64 bitrate"),
-        H("c01::c01_take_batch_registers", "core", desc="flush registers exactly the data packets; stamps last_sent", bounds="<=3 datagrams"),
+        H("c01::c01_take_batch_registers", "core", desc="flush registers exactly the data packets; stamps last_sent", bounds="3 datagrams"),
         H("c01::c01_probe_cadence_step", "core", desc="one probe per 100 calls from any counter state"),
-        H("c01::c01_fifo_integrity_33", "core", tier="thorough", desc="same as _5 up to a full high-load batch + 1", bounds="n<=33", timeout=3000),
+        H("c01::c01_flush_predicates_d20", "core", tier="thorough", desc="same", bounds="depth 20", timeout=3000),
+        H("c01::c01_flush_predicates_d31", "core", tier="thorough", desc="same", bounds="depth 31", timeout=3000),
+        H("c01::c01_fifo_integrity_16", "core", tier="thorough", desc="same (normal batch)", bounds="exactly 16 datagrams", timeout=3000),
+        H("c01::c01_fifo_integrity_17", "core", tier="thorough", desc="same", bounds="exactly 17 datagrams", timeout=3000),
+        H("c01::c01_fifo_integrity_32", "core", tier="thorough", desc="same (high-load batch)", bounds="exactly 32 datagrams", timeout=3000),
+        H("c01::c01_fifo_integrity_33", "core", tier="thorough", desc="same", bounds="exactly 33 datagrams", timeout=3000),
+    ],
+)
+
+PROPS["C05"] = dict(
+    functions=["sender::packet_handler::attribute_nak (via sender::verif_hooks)", "SequenceTracker::{new, insert, get, remove_connection}, "
+               "SequenceTrackingEntry::{is_valid, is_expired}", "SrtlaConnection::handle_nak", "CongestionControl::handle_nak"],
+    bounds="one NAK (then the same NAK again) over 2 links: any 31-bit sequence number, any clock, the tracker slot of that number holds an "
+           "arbitrary entry written through the real insert (same number <= 5000 ms old naming link 0 / link 1 / a removed link; or no valid "
+           "entry: empty, displaced by seq + k*SIZE for k in 1..3, or expired by >= 1 ms); each link independently holds the number or not plus "
+           "one unrelated packet; arbitrary window / loss state. One harness instance per tracker-named link (no symbolic slice index).",
+    stubs=["alloc::fmt::format -> empty String"],
+    assumptions=["SequenceTracker ring instantiated with 16 slots in the Kani build (feature verif-model size seam; same source, collisions at "
+                 "seq + 16 instead of seq + 16384); native replays run on the 16384-slot build", "clock values <= 2^48 ms",
+                 "packet_log modelled as a 4-entry finite map"],
+    outside="NAK *lists* (the per-entry loop in process_connection_events and range expansion) beyond 'same NAK twice'; more than 2 links; "
+            "the tracker insert sites in forward_via_connection (decided by the C04 shell harness when present); the instance with the remembered "
+            "carrier at slice position 1 (spurious CBMC failure, see DESIGN.md)",
+    harnesses=[
+        H("c05::c05_n2_named0", "shell", desc="tracker remembers link 0 as carrier", timeout=1500),
+        H("c05::c05_n2_removed", "shell", desc="tracker names a link that was removed", timeout=1500),
+        H("c05::c05_n2_norecord", "shell", desc="no valid record: empty / collision / expired", timeout=1500),
+        H("c19::c19_tracker_purge", "shell", desc="remove_connection purges exactly the removed link's records"),
+    ],
+)
+
+PROPS["C18"] = dict(
+    functions=["DynamicConfig::{from_cli, snapshot, mode, set_mode, set_quality_enabled, set_stall_deselect, set_conn_timeout_ms, clone}",
+               "ConfigSnapshot::effective_quality_enabled", "SchedulingMode::{as_u8, from_u8, is_classic}"],
+    bounds="any start-up configuration, any sequence of 3 setter calls with arbitrary arguments (timeout any u64), against a 6-field model",
+    stubs=[],
+    assumptions=["single-threaded (Kani has no threads); atomics are sequentially executed"],
+    outside="THE JSON-RPC LAYER IS NOT DECIDED: totality and response framing for arbitrary input lines, error codes -32700/-32600/-32601/"
+            "-32602, notifications, and stdin/socket equivalence all go through serde_json::from_str / Value / to_string (a third-party "
+            "parser with input-dependent loops, heap maps and string formatting), which is out of reach of CBMC beyond a handful of bytes; "
+            "concurrent setters/readers are out of reach (no threads in Kani). Only 'a successful set_* is visible in the next snapshot' and "
+            "'the timeout is clamped to 1000..60000 and echoed as applied' are claimed, at the DynamicConfig level that the dispatcher calls.",
+    harnesses=[
+        H("c18::c18_setters_take_effect", "shell", desc="3 arbitrary setter calls vs model; clamp + echo"),
+        H("c18::c18_mode_codes", "shell", desc="mode <-> u8 conversions"),
+    ],
+)
+
+PARKED_C09 = dict(
+    functions=["sender::uplink_recv::process_uplink_packet (via sender::verif_hooks, polled with kani::block_on)",
+               "SrtlaRegistrationManager::{process_registration_packet, reg1_if_ngp_immediate}", "srtla_protocol::{get_packet_type, parse_srt_ack, "
+               "parse_srt_nak, parse_srtla_ack, extract_keepalive_timestamp}", "RttTracker::handle_keepalive_response", "SrtlaConnection::{clear_pre_registration_state, record_rtt_probe}"],
+    bounds="every datagram of 0..=24 bytes (symbolic length and bytes), all 65536 type codes split over 10 harness instances (one per interpreted "
+           "type, one for all other codes, one for typeless 0..1-byte datagrams); arbitrary link state and registration-manager state; client "
+           "address known or not; NAK ranges <= 3 wide",
+    stubs=["srtla_core::utils::now_ms -> harness-controlled virtual clock", "tokio::net::UdpSocket::try_send_to -> records the call, returns Ok",
+           "tokio::sync::mpsc::UnboundedSender::send -> Ok", "RttTracker::update_estimate -> sample recorder", "alloc::fmt::format -> empty String"],
+    assumptions=["the socket / channel references passed in are never dereferenced (all their entry points are stubbed)",
+                 "clock values <= 2^48 ms"],
+    outside="the actual send_to towards the client (process_connection_events' forwarding loop does socket I/O); datagrams of 25..1500 bytes (the "
+            "relay copy is length-generic); the liveness clause is checked for datagrams of >= 2 bytes: a 1-byte datagram carries no type code "
+            "and is ignored entirely by the code (it neither refreshes last_received nor is relayed) - recorded in DESIGN.md as an observation, "
+            "not treated as a defect because the statement frames the relay rule for 'two or more bytes'",
+    harnesses=[
+        H("c09::c09_other_types", "shell", desc="every type code the sender does not interpret: relayed once, unchanged", timeout=1500),
+        H("c09::c09_typeless", "shell", desc="0..1-byte datagrams: nothing relayed, no panic", timeout=1500),
+        H("c09::c09_srt_ack", "shell", desc="SRT ACK: relayed once (+ instant path iff client known), number extracted", timeout=1500),
+        H("c09::c09_srt_nak", "shell", desc="SRT NAK: relayed once, list extracted", timeout=1500),
+        H("c09::c09_srtla_ack", "shell", desc="SRTLA ACK: consumed, numbers extracted, not delivery proof by itself", timeout=1500),
+        H("c09::c09_keepalive", "shell", desc="keepalive echo: consumed; proof stamped only if a probe was outstanding and 0<RTT<=10s", timeout=1500),
+        H("c09::c09_reg_ngp", "shell", desc="REG_NGP: consumed; immediate REG1 only here", timeout=1500),
+        H("c09::c09_reg2", "shell", desc="REG2: consumed at any length", timeout=1500),
+        H("c09::c09_reg3", "shell", desc="REG3: connects this uplink, warming, clean accounting", timeout=1500),
+        H("c09::c09_reg_err", "shell", desc="REG_ERR: disconnects", timeout=1500),
     ],
 )
 
 NOT_APPLICABLE = {
+    "C09": "the harness over the real process_uplink_packet (hk/shell/src/c09.rs, 10 instances by datagram type, async fn polled with "
+           "kani::block_on, socket entry points stubbed) compiles and encodes, but every instance - even the one for 0..1-byte datagrams - "
+           "drives CBMC past 12-14 GB within 10 minutes (the SrtlaIncoming result carries nested vector models through the async state "
+           "machine); no instance could be decided, so nothing is claimed. The parsers it dispatches to are decided under C15 and the "
+           "earned-ACK / keepalive stamping rules under C13/C14",
+    "C19": "the reload parser (analyze_ip_reload_text: str::lines / trim / IpAddr::from_str over a symbolic text) did not finish in CBMC even for "
+           "one-character texts (timeout / >14 GB at 20 min per length), and apply_connection_changes is I/O-bound async code (format!-built "
+           "label sets, HashSet<String>, socket creation through the binder, tokio); only the SequenceTracker purge clause is decidable and it "
+           "is checked under C05 (c19_tracker_purge) - too small a part of the statement to claim the property",
     "C20": "quantifies over interleavings of tokio tasks contending for an async Mutex and bounded mpsc channels; Kani/CBMC do not model "
            "concurrency or an async scheduler, tokio's runtime touches thread-locals Kani 0.68 cannot compile, and a hand encoding would "
            "verify a model of tokio rather than the real code",
